@@ -78,7 +78,7 @@ CHECKS["C08"] = dict(
     text="Lean 4: (1) matcher soundness on the model of PreAggregationMatcher/_try_use_preaggregation (Layer/Routing.lean): whenever `route` picks a rollup the query is grouped, all non-time dimensions and filter columns are rollup columns, "
          "every measure is listed, unfiltered and decomposable, and EVERY requested granularity belongs to the rollup's time dimension and is accepted by the regenerated compatibility table (C08_route_sound, C08_canSatisfy_sound, C08_derivable_sound, C08_time_key_factors via C09); "
          "(2) re-aggregation is exact for every table, bucket key, outer key factoring through it and bucket-key filter: partition permutation, commutative-monoid folds, two-level = one-level grouping (Proofs/Reagg.lean; C08_sum/count/min/max_from_rollup), AVG-of-bucket-averages refuted (F9). "
-         "(3) end to end on the relational evaluator (Proofs/RoutedGlue.lean): for a rollup with a time key and stored dimensions (C08_matQuery_has_shape), a requested granularity accepted by the regenerated table or the rollup's own, and any subset of the stored dimensions, the rows the evaluator returns for the routed statement over the rows it returns for the materialization are a permutation of the base-table statement's rows, for EVERY table (C08_routed_rows_are_base_rows_sum_partial/_count_partial, their _filtered_ versions and _min/_max_filtered_partial for numeric measures, with a WHERE clause over stored bare-column dimensions; column lookups proved from alias distinctness, filters through Expr.eval_congr; C08_routedQuery_has_shape ties the key list to routedQuery). "
+         "(3) end to end on the relational evaluator (Proofs/RoutedGlue.lean): for a rollup with a time key and stored dimensions (C08_matQuery_has_shape), a requested granularity accepted by the regenerated table or the rollup's own, and any subset of the stored dimensions, the rows the evaluator returns for the routed statement over the rows it returns for the materialization are a permutation of the base-table statement's rows, for EVERY table (C08_routed_rows_are_base_rows_sum_partial/_count_partial, their _filtered_ versions and _min/_max_filtered_partial for numeric measures, with a WHERE clause over stored bare-column dimensions; column lookups proved from alias distinctness, filters through Expr.eval_congr; C08_routedQuery_has_shape ties the key list to routedQuery; C08_model_routed_rows_sum_partial states it for routedQuery over matQuery of the routing model itself). "
          "Tie: generate_materialization_sql vs matQuery, routing decision vs route, routed SQL vs routedQuery (structural) and rollup/routed rows vs the Lean evaluators (behavioural). Search: the layer's own rollups, routed vs unrouted compile() on the same DuckDB database.",
     design_ref="DESIGN.md §4 C08",
     note="Partial: the end-to-end theorems cover one SUM/COUNT/MIN/MAX measure per statement, one requested granularity and filters over stored bare-column dimensions; time-column filters, expression dimensions and several granularities stay with the matcher theorems + correspondence; MIN/MAX theorem for numeric measures. Nine genuine defects fixed, three recorded (F9 AVG, F31 time filter alignment, F33 time dimension as plain dimension).",
